@@ -357,6 +357,17 @@ func c09Order(chains []string) *C09 {
 	return c
 }
 
+// c09Small: four validators with keys, one holds 4% (1 of 25): its departure moves 8% of normalised power.
+func c09Small() *C09 {
+	c := NewC09(4)
+	c.Chains = []string{"ethereum"}
+	c.Stakes = []int64{1, 8}
+	c.Seed = []engine.Op{engine.OpN("Reg", "ethereum", 0), engine.OpN("Reg", "ethereum", 1), engine.OpN("Reg", "ethereum", 2), engine.OpN("Reg", "ethereum", 3),
+		engine.OpN("SetStake", 1, 1), engine.OpN("SetStake", 2, 1), engine.OpN("SetStake", 3, 1), engine.OpN("Next")}
+	c.Extra = true
+	return c
+}
+
 func init() {
 	Register("C09", MultiRunner(func(tier string) ([]MultiCase, []string) {
 		d3, d4, dl := 5, 4, 60*time.Second
@@ -368,6 +379,7 @@ func init() {
 				{Name: "4 validators", Spec: NewC09(4), Cfg: engine.Config{MaxDepth: d4, Deadline: dl, ReplayLeaf: 20}},
 				{Name: "1 validator", Spec: NewC09(1), Cfg: engine.Config{MaxDepth: d3 + 1, Deadline: dl, ReplayLeaf: 20}},
 				{Name: "3 validators with keys: jailing before BeginBlocker, observed sets, quiet periods", Spec: c09Extra(), Cfg: engine.Config{MaxDepth: d4, Deadline: dl, ReplayLeaf: 20}},
+				{Name: "stakes 1/8/8/8 with keys: a 4% validator leaves, is jailed, returns", Spec: c09Small(), Cfg: engine.Config{MaxDepth: d4 - 1, Deadline: dl, ReplayLeaf: 20}},
 				{Name: "Chains parameter in another order: hub, minter, ethereum", Spec: c09Order([]string{"hub", "minter", "ethereum"}), Cfg: engine.Config{MaxDepth: d4 - 1, Deadline: dl, ReplayLeaf: 20}},
 				{Name: "Chains parameter in another order: ethereum, hub, bsc", Spec: c09Order([]string{"ethereum", "hub", "bsc"}), Cfg: engine.Config{MaxDepth: d4 - 1, Deadline: dl, ReplayLeaf: 20}},
 			}, []string{
